@@ -227,13 +227,19 @@ def run_case(case, policy=None, max_steps=20000):
     bytes_mode = case['mode'] == 'bytes'
     kinds = {}
     in_ident = set()
+    net = fakes.Net(s, log)
+    _tcp, restore_tcp = fakes.tcp_under_test(log, s)
     with s.patched(frappy.io, threading=s.threading, time=tproxy), \
             s.patched(frappy.modulebase, threading=s.threading, time=s.time, mkthread=s.mkthread), \
-            s.patched(frappy.lib.asynconn, time=s.time):
+            s.patched(frappy.lib.asynconn, time=s.time, socket=net.socket, select=net.select):
         dev = fakes.Device(s, log, 'dev', case['device'])
+        net.listen(dev)
         dev.send_kind = lambda: 'isend' if log.who() in in_ident else 'send'
         try:
             cls = frappy.io.BytesIO if bytes_mode else frappy.io.StringIO
+            uri, defaults = io_address(case, dev)
+            if defaults is not None:    # the port comes from the IO class (a class of its own per run)
+                cls = type('WithDefaults', (cls,), {'default_settings': defaults})
             if bytes_mode and case.get('varlen'):
                 class VarLen(cls):
                     """replies of variable length, the documented way: a header of fixed length tells how many bytes
@@ -249,9 +255,11 @@ def run_case(case, policy=None, max_steps=20000):
                 cls = VarLen
             if case.get('yattr'):
                 cls = type('Instrumented', (cls,), {a: YieldingAttr(a, log, getattr(cls, a, None)) for a in case['yattr']})
-            cfg = {'cls': cls, 'description': 'x', 'uri': dev.uri}
+            cfg = {'cls': cls, 'description': 'x', 'uri': uri}
             for k, v in case['io'].items():
                 cfg[k] = {'value': v}
+            if case.get('eol') and not bytes_mode:     # [receive, send] terminators (a tuple end_of_line) or one string
+                cfg['end_of_line'] = tuple(case['eol']) if isinstance(case['eol'], list) else case['eol']
             if case.get('ident'):      # [[command, prefix of the expected reply, length of the reply (bytes mode)], ...]
                 if bytes_mode:
                     cfg['identification'] = [(' '.join(c), ' '.join(list(pfx) + ['??'] * (n - len(pfx))))
@@ -386,11 +394,32 @@ def run_case(case, policy=None, max_steps=20000):
             out = s.run()
         finally:
             dev.unregister()
+            restore_tcp()
     events = log.sorted()
     for ev in events:
         if ev['e'] == 'connect':
             ev['od'] = kinds_at(events, ev) not in ('poll', None)    # None: the real poll thread
     return s, {'events': events, 'sched': out}
+
+
+ADDR_FORMS = ['port', 'bare', 'default', 'default_bare', 'secop']
+
+
+def io_address(case, dev):
+    """(uri, default_settings of the IO class or None) for the scenario's way of giving the device's address:
+    in the uri (with or without scheme), or the port by the IO class' default_settings, or nowhere (SECoP default port)"""
+    form = (case.get('addr') or 'port')
+    if form == 'port':
+        return f'tcp://{dev.host}:{dev.port}', None
+    if form == 'bare':
+        return f'{dev.host}:{dev.port}', None
+    if form == 'default':
+        return f'tcp://{dev.host}', {'port': dev.port, 'baudrate': 9600}
+    if form == 'default_bare':
+        return dev.host, {'port': dev.port}
+    if form == 'secop':         # the device script has to say 'port': SECoP_DEFAULT_PORT
+        return dev.host, None
+    raise ValueError(form)
 
 
 def kinds_at(events, ev):
